@@ -152,6 +152,23 @@ for n, tiers in [(5, (Q, T)), (7, (T,))]:
       inputs=f"every ASCII string of 0..={n} bytes as prefix text; every 20-byte address",
       bound=f"prefix text <= {n} bytes (<= {n-2} digits)",
       spec="Ok iff 0x + hex digits of either case; matches iff nibble k of the address = digit k for all k")
+# does not compile: Kani 0.68 internal compiler error (intrinsics.rs: an intrinsic returning i32, reached through std::thread::spawn in the
+# threaded branch of cmd::new::run) -- kept as documented attempts under the tag X18
+for _nm, _props in [("c12_run_plain", ["X18"]), ("c18_run_vanity_index", ["X18"]), ("c18_run_vanity_hd_path", ["X18"])]:
+  H(_nm, "cmd_new", _props, timeout=1800, mem_gb=14,
+    auto_unwind={"memcmp": 40, "k256": 34, "ecdsa": 34, "elliptic": 34, "bigint": 34, "generic_array": 34, "from_be_slice": 34},
+    functions=["cmd::new::run (single-threaded path: vanity_threads = 0)", "cmd::new::Prefix::matches", "<Mnemonic as Display>::fmt", "format!/println! (real)"],
+    inputs="requested length and account index symbolic (all 2^64 values); address of the first candidate symbolic (all 2^160), the second "
+           "candidate matches; entropy failure at request 1, 2, 3 or never and key-derivation failure at call 1, 2, 3 or never symbolic; "
+           "configuration (prefix given or not, --vanity-hd-path given or not) concrete per query",
+    bound="one-byte prefix 0xab, at most two candidates, vanity_threads = 0",
+    stubs=["mnemonic::Mnemonic::random -> recorder: tagged mnemonics or an error (C12's library-level queries decide the real one)",
+           "cmd::AccountOptions::private_key -> recorder: which mnemonic, password, account selector (C16)", "account::PrivateKey::address -> symbolic "
+           "address (C04)", "mnemonic::Mnemonic::to_phrase -> the tag as text (C01)", "std::io::_print -> formats its arguments with the real "
+           "format! and keeps the first byte"],
+    spec="printed phrase = the candidate whose selected account's address matched (first iff it matches, else second), searched under the given "
+         "vanity password / index / path; any entropy or derivation failure -> error and nothing printed; without a prefix exactly one "
+         "mnemonic of the requested length is generated and printed")
 H("c18_prefix_full_address", "cmd_new", ["C18", "C17"], tiers=(T,), timeout=1800,
   functions=["cmd::new::Prefix::from_str", "cmd::new::Prefix::matches"],
   inputs="40- and 41-digit prefixes spelling a symbolic address in symbolic case; a second symbolic address",
@@ -529,6 +546,8 @@ for l in (0, 1, 2, 3, 4, 8):
 
 for _nm in ["c16_account_default", "c16_account_hd_path", "c16_account_bad_path"]:
   H(_nm, "cmd", ["C16", "C17"], timeout=1800, mem_gb=12,
+    auto_unwind={"memcmp": 40, "k256": 34, "ecdsa": 34, "elliptic": 34, "bigint": 34, "generic_array": 34, "from_be_slice": 34,
+                 "TwoWaySearcher": 12, "maximal_suffix": 12},
   functions=["cmd::AccountOptions::private_key", "<hdk::Path as FromStr>::from_str (real, on the two concrete --hd-path texts)", "hdk::derive"],
   inputs="password: every ASCII string of 0..=3 bytes; account index: all 2^64 values; --hd-path absent / 'm/9' / '9' (malformed) -- one query "
          "each; verdicts of for_index and of the derivation symbolic",
@@ -536,8 +555,8 @@ for _nm in ["c16_account_default", "c16_account_hd_path", "c16_account_bad_path"
   stubs=["mnemonic::Mnemonic::seed -> recorder (which mnemonic, which password; fixed seed) -- C02", "hdk::Path::for_index -> recorder (which "
          "index; returns the path [77'] or an error) -- C14", "hdk::derive_slice -> recorder (which seed, which path; fixed key or an error) -- C03"]
         + NOFMT,
-  spec="seed = seed(this mnemonic, this password); path = for_index(account_index) without --hd-path, the parsed --hd-path otherwise (the "
-       "account index is then not consulted); a path error is returned and nothing is derived; the result of derive(seed, path) is returned unchanged")
+  spec="seed = seed(this mnemonic, this password); path = for_index(account_index) without --hd-path, the parsed --hd-path otherwise (whatever "
+       "the account index is); a path error is returned and nothing is derived; the result of derive(seed, path) is returned unchanged")
 
 # =========================================================================================== C06 with rlp::list as a recorder
 LIST_STUB = ["transaction::rlp::{uint, bytes} and AccessList::rlp_encode -> recorders (log kind, value, length; return a distinct one-byte "
@@ -557,6 +576,14 @@ for nm, what in [("c06l_eip2930_unsigned", "EIP-2930, unsigned, one access-list 
       bound="calldata 3 bytes; r, s fixed non-trivial constants", stubs=LIST_STUB,
       spec="type byte || ONE list of exactly [chainId, nonce, (gasPrice | maxPriorityFeePerGas, maxFeePerGas), gas, to-or-empty, value, data, "
            "accessList] followed by [yParity, r, s] iff signed, each leaf the value of that field, in this order")
+for nm in ["c06l_eip2930_signed_sym_r", "c06l_eip1559_signed_sym_r"]:
+    H(nm, "transaction", ["C06", "C07", "C17"], timeout=1200, mem_gb=9, auto_unwind=K256_UNWIND,
+      functions=["transaction::Eip2930Transaction::rlp_encode" if "2930" in nm else "transaction::Eip1559Transaction::rlp_encode",
+                 "account::Signature::{from_parts, y_parity, r, s}"],
+      inputs="signed typed transaction; every integer field symbolic; r symbolic in its three leading bytes (leading zero bytes included), parity symbolic",
+      bound="calldata 3 bytes, empty access list, s fixed", stubs=LIST_STUB,
+      spec="as c06l_*_signed; r and s are emitted as canonical integers (a leaf encoded through rlp::bytes is accepted iff it is the minimal "
+           "big-endian form of the integer)")
 H("c06l_eip1559_symdata", "transaction", ["C06", "C17"], timeout=900, mem_gb=6, auto_unwind=K256_UNWIND,
   functions=["transaction::Eip1559Transaction::rlp_encode", "transaction::rlp::iter"],
   inputs="as c06l_eip1559_signed with calldata of symbolic length 0..=40 and symbolic content and an access list of 0, 1 or 2 entries",
@@ -772,10 +799,11 @@ c07_len c07_bytes_000 c07_bytes_001 c07_bytes_002 c07_bytes_055 c07_bytes_056 c0
 c07_uint c07_list_0_0_0 c07_list_20_20_15 c07_list_21_20_15 c07_iter_1_33_21 c07_list_empty c07_iter_100_100_56 c06_alist_empty
 c06_legacy_unsigned_nochain c06_legacy_unsigned_chain c06_legacy_signed_nochain c06_legacy_signed_chain
 c06l_eip2930_unsigned c06l_eip2930_signed c06l_eip1559_unsigned c06l_eip1559_signed c06l_signing_message_eip2930
-c06l_signing_message_eip1559 c06l_eip1559_symdata
+c06l_signing_message_eip1559 c06l_eip1559_symdata c06l_eip2930_signed_sym_r
 c06i_alist_0_0_0 c06i_alist_1_1_0 c06i_alist_1_2_0 c06i_alist_2_1_0
 c19_filtercap_ascii_4 c19_filtercap_ascii_8 c19_filtercap_ascii_12 c19_filtercap_unicode c19_hexcap_ascii4 c19_respell_1
 c13n_bytes_2 c13n_bytes_4
+c16_account_default c16_account_hd_path c16_account_bad_path
 c06l_signing_message_legacy_nochain c06l_signing_message_legacy_chain c06_sig_accessors c11_v c11_v_kf_d7
 c08_final_digest c08_atom_string c08_atom_bytes_dynamic c09_uint_range c09_int_range
 c09_bytes1_len0 c09_bytes1_len1 c09_bytes1_len2 c09_bytes4_len3 c09_bytes31_len32 c09_bytes32_len31 c09_bytes32_len32 c09_bytes32_len33
@@ -795,7 +823,7 @@ c01_count_19 c01_count_20 c01_count_22 c01_count_26 c01_count_27 c01_count_30 c0
 c03_master_s16 c03_master_s32 c03_master_s96 c03_d1_hardened_s64 c03_d1_normal_s64
 c04_new_01 c04_new_16 c04_new_24 c04_new_40 c04_new_64
 c06_signing_message_legacy_chain c06_signing_message_legacy_nochain c06_eip2930_unsigned c06l_encode_dispatch
-c06i_alist_1_0_0 c06i_alist_2_0_2 c06i_alist_2_2_2
+c06i_alist_1_0_0 c06i_alist_2_0_2 c06i_alist_2_2_2 c06l_eip1559_signed_sym_r
 c19_filtercap_ascii_3 c19_filtercap_ascii_6 c19_filtercap_ascii_16 c19_hexcap_ascii6 c19_hexcap_unicode c19_respell_0
 c07_bytes_003 c07_bytes_020 c07_bytes_032 c07_bytes_033 c07_bytes_054 c07_bytes_064 c07_bytes_100 c07_bytes_255 c07_bytes_256
 c07_bytes_257 c07_list_1_0_2 c07_list_33_33_33 c07_iter_0_0_0
@@ -814,5 +842,5 @@ for _h in HARNESSES:
 C17_QUICK = set("""
 c01_len_table c01_count_14 c01_count_23 c01_count_25 c01_unpack_12 c12_random c04_new_32 c07_len c07_bytes_symlen
 c11_v c11_v_kf_d7 c14_component c15_parse_other_lengths c15_parse_132 c13_numstr_0 c18_prefix_5 c09_int_range c20_domain_1
-c10_digest_symlen c19_filtercap_ascii_8 c13n_bytes_4 c06l_eip1559_symdata
+c10_digest_symlen c19_filtercap_ascii_8 c13n_bytes_4 c06l_eip1559_symdata c16_account_bad_path
 """.split())
